@@ -956,6 +956,44 @@ func (e *env) runGit(c gitCase) {
 	e.w.Emit(gen.Case{Go: goV, Key: key, Class: fmt.Sprintf("git-%s-updated=%v", c.Change, updated), Nontrivial: c.Change != "none", Detail: detail})
 }
 
+
+// ---------------------------------------------------------------- the repository's own test shards (other format / feature versions)
+
+type tdCase struct {
+	Op    string `json:"op"` // testdata
+	Shard string `json:"shard"`
+	B     optsD  `json:"b"`
+}
+
+// runTestdata: IndexState against a copy of one of /repo/testdata/shards (format versions 16 and 17, older feature
+// versions, stored RawConfig with repoid): model agreement only — the options these shards were built with are unknown.
+func (e *env) runTestdata(c tdCase) {
+	src := filepath.Join(os.Getenv("VERIF_REPO"), "testdata", "shards", c.Shard)
+	b, err := os.ReadFile(src)
+	if err != nil {
+		e.w.Emit(gen.Case{Class: "testdata-missing", Detail: gen.Detail(c)})
+		return
+	}
+	dir := e.tmp("td")
+	defer os.RemoveAll(dir)
+	if err := os.WriteFile(filepath.Join(dir, c.Shard), b, 0o644); err != nil {
+		panic(err)
+	}
+	ob := c.B.options(dir)
+	ob.ShardPrefixOverride = "" // the shard is found by the repository name
+	ob.SetDefaults()
+	bd := effective(c.B, ob)
+	disk, _ := diskOf(dir)
+	if _, err := os.Stat(filepath.Join(dir, fmt.Sprintf("%s_v%d.00000.zoekt", bd.Repo.Name, index.IndexFormatVersion))); err != nil {
+		if _, err := os.Stat(filepath.Join(dir, fmt.Sprintf("%s_v%d.00000.zoekt", bd.Repo.Name, index.NextIndexFormatVersion))); err != nil {
+			disk = "noshard" // findShard looks for <name>_v16 / <name>_v17 only
+		}
+	}
+	st, _ := ob.IndexState()
+	e.w.Emit(gen.Case{In: fmt.Sprintf("state 0 %s %s %s %s", versions(), disk, encOpts(bd), encOpts(bd)), Impl: string(st),
+		Class: "testdata-" + string(st), Nontrivial: st != index.IndexStateMissing, Detail: gen.Detail(c)})
+}
+
 // ---------------------------------------------------------------- main
 
 func (e *env) runDetail(raw json.RawMessage, muts map[string]func(*index.Options)) {
@@ -984,6 +1022,10 @@ func (e *env) runDetail(raw json.RawMessage, muts map[string]func(*index.Options
 		var c gitCase
 		json.Unmarshal(raw, &c)
 		e.runGit(c)
+	case "testdata":
+		var c tdCase
+		json.Unmarshal(raw, &c)
+		e.runTestdata(c)
 	default:
 		panic("unknown op in replay/corpus: " + probe.Op)
 	}
@@ -1043,10 +1085,26 @@ func main() {
 		e.runGit(gitCase{Op: "git", Change: ch})
 	}
 	r := gen.NewRand(f.Seed)
-	for i := 0; i < f.N(25, 200); i++ {
+	// the repository's own test shards: format 16 and 17, older feature versions
+	if shards, _ := filepath.Glob(filepath.Join(os.Getenv("VERIF_REPO"), "testdata", "shards", "*.zoekt")); len(shards) > 0 {
+		for i := 0; i < f.N(40, 400); i++ {
+			sh := filepath.Base(gen.Pick(r, shards))
+			b := genOpts(r)
+			b.Repo.Name = sh[:strings.Index(sh, "_v")]
+			if r.Chance(1, 2) {
+				b.SizeMax, b.DisableCTags, b.LargeFiles = 2097152, true, nil // the options the repository's tests expect to match
+				b.Repo = repoD{Name: b.Repo.Name}
+			}
+			if r.Chance(1, 8) {
+				b.Repo.Name += "x"
+			}
+			e.runTestdata(tdCase{Op: "testdata", Shard: sh, B: b})
+		}
+	}
+	for i := 0; i < f.N(15, 200); i++ {
 		e.runScenario(genScenario(r))
 	}
-	for i := 0; i < f.N(30, 250); i++ {
+	for i := 0; i < f.N(20, 250); i++ {
 		a := genOpts(r)
 		b := cloneOpts(a)
 		what := gen.Pick(r, []string{"Branches", "RawConfig", "URL", "CommitURLTemplate", "FileURLTemplate", "LineFragmentTemplate", "Metadata",
